@@ -152,6 +152,47 @@ pub struct Contents {
     pub memory_expected: usize,
     /// C05: exact partition of the data area right after recovery (None = exact)
     pub partition_problem: Option<(String, String)>,
+    /// C12 (only when `PROBE_CLOCK` is set on this thread): an automatic write on a recovered key
+    /// was refused or did not get a timestamp above the recovered one
+    pub clock_problem: Option<String>,
+    /// keys probed / probe skipped because a recovered timestamp sits in the saturation range
+    pub clock_probed: usize,
+    pub clock_skipped_saturated: bool,
+}
+
+thread_local! {
+    /// when set, `open_image` follows the read-back with automatic writes on recovered keys (C12)
+    pub static PROBE_CLOCK: std::cell::Cell<bool> = const { std::cell::Cell::new(false) };
+}
+
+/// C12 after recovery: automatic writes on recovered keys must be accepted with a timestamp above
+/// the recovered one (keys chosen: the highest recovered timestamps and the first ones).
+fn probe_clock(store: &feoxdb::FeoxStore, map: &BTreeMap<Vec<u8>, (Vec<u8>, u64, u64)>) -> (Option<String>, usize, bool) {
+    if map.values().any(|(_, ts, _)| *ts >= u64::MAX - (1 << 20)) {
+        return (None, 0, true);
+    }
+    let mut by_ts: Vec<(&Vec<u8>, u64)> = map.iter().map(|(k, v)| (k, v.1)).collect();
+    by_ts.sort_by(|a, b| b.1.cmp(&a.1));
+    let mut chosen: Vec<(&Vec<u8>, u64)> = by_ts.iter().take(4).copied().collect();
+    for (k, v) in map.iter().take(2) {
+        if !chosen.iter().any(|(c, _)| *c == k) {
+            chosen.push((k, v.1));
+        }
+    }
+    let mut probed = 0;
+    for (k, ts) in chosen {
+        probed += 1;
+        let _g = env::watch("clock probe");
+        match store.insert(k, b"clock-probe") {
+            Ok(_) => match store.verif_peek(k) {
+                Some(p) if p.timestamp > ts => {}
+                Some(p) => return (Some(format!("an automatic insert on recovered key {} (timestamp {ts}) was accepted with timestamp {} which is not above it", model::short(k), p.timestamp)), probed, false),
+                None => return (Some(format!("key {} vanished right after an accepted automatic insert", model::short(k))), probed, false),
+            },
+            Err(e) => return (Some(format!("an automatic insert on recovered key {} (recovered timestamp {ts}) was refused: {e:?}", model::short(k))), probed, false),
+        }
+    }
+    (None, probed, false)
 }
 
 pub struct Opened {
@@ -210,6 +251,7 @@ pub fn open_image(img: &[u8], cfg: &Config, now: u64, record: bool, want_post: b
         store.range_query(b"", &[0xff; 4100], usize::MAX).map(|p| p.len()).unwrap_or(usize::MAX)
     };
     let records = snap.records.len();
+    let (clock_problem, clock_probed, clock_skipped_saturated) = if PROBE_CLOCK.with(|c| c.get()) && read_error.is_none() { probe_clock(&store, &map) } else { (None, 0, false) };
     trace::unregister(&path);
     env::reap(store, Some(path));
     if let Some(e) = read_error {
@@ -218,7 +260,7 @@ pub fn open_image(img: &[u8], cfg: &Config, now: u64, record: bool, want_post: b
     if records != len {
         return Err(format!("len-mismatch: len()={len} but {records} records are indexed"));
     }
-    Ok(Opened { contents: Contents { map, len, range_len, extents, memory_usage, memory_expected, partition_problem }, recovery_entries, post_image })
+    Ok(Opened { contents: Contents { map, len, range_len, extents, memory_usage, memory_expected, partition_problem, clock_problem, clock_probed, clock_skipped_saturated }, recovery_entries, post_image })
 }
 
 /// C05 structural oracle on a store snapshot taken while nothing is in flight: every data block
@@ -581,7 +623,7 @@ pub fn explore(run: &WorkloadRun, case: &Case, which: &str, budget: &Budget, sta
             // a third of the images is recovered much later than the crash: every TTL has passed
             // (an expired newest generation next to an older one must not resurrect the older one)
             let mut info = info.clone();
-            if run.cfg.ttl && image_no % 3 == 0 {
+            if run.cfg.ttl && image_no % 3 == 0 && which != "C12" {
                 info.now = info.now.saturating_add(FAR_FUTURE);
                 stats.hit("image.recovered_after_all_ttls_passed");
             }
@@ -590,7 +632,7 @@ pub fn explore(run: &WorkloadRun, case: &Case, which: &str, budget: &Budget, sta
                 Err(e) => {
                     let sig = if e.starts_with("len-mismatch") { "len-mismatch".to_string() } else { format!("open-failed:{}", e.split(':').next().unwrap_or("?")) };
                     stats.hit("open_failed");
-                    if which != "C04" && which != "C13" && which != "C05" {
+                    if which != "C04" && which != "C13" && which != "C05" && which != "C12" {
                         return Some(CrashFailure { property_hint: "C03", signature: sig, msg: format!("crash image cannot be reopened: {e}"), spec, nested: vec![] });
                     }
                 }
@@ -603,6 +645,20 @@ pub fn explore(run: &WorkloadRun, case: &Case, which: &str, budget: &Budget, sta
                             if dec.all_records.len() > dec.live.len() {
                                 stats.nontrivial_c04.insert(fp);
                                 stats.hit("c05.image_with_duplicate_generations");
+                            }
+                        }
+                    } else if which == "C12" {
+                        if let Some(msg) = &o.contents.clock_problem {
+                            return Some(CrashFailure { property_hint: "C12", signature: "auto-write-after-recovery".into(), msg: format!("after recovering a crash image at virtual time {}: {msg}", info.now), spec, nested: vec![] });
+                        }
+                        if o.contents.clock_skipped_saturated {
+                            stats.hit("c12.probe_skipped_saturated_timestamp");
+                        }
+                        if o.contents.clock_probed > 0 {
+                            stats.hit("c12.images_probed");
+                            if o.contents.map.values().any(|(_, ts, _)| *ts > info.now) {
+                                stats.nontrivial_c04.insert(fp);
+                                stats.hit("c12.recovered_timestamp_ahead_of_clock");
                             }
                         }
                     } else if which == "C13" {
